@@ -507,3 +507,34 @@ PROPS["C19"] = dict(
               "Lean BFS model, with the Lean promotion-rule spec and with an independent Go implementation of the promotion rule; then values "
               "of the root types (embedded pointers nil and non-nil) round-tripped through the autogenerated atlases in both formats",
 )
+
+def rule_hist(body, I, M):
+    i = I.get("I", "")
+    if _isdef(body, i):
+        return dict(corr_ok=True, prop_ok=True, nontrivial=False, bucket="def", why="")
+    if _bad_impl(i):
+        return dict(corr_ok=False, prop_ok=False, nontrivial=True, bucket="crash", why="implementation " + i)
+    corr_ok = (i == M.get("M"))
+    o = I.get("O", "ok")
+    prop_ok, why = (o == "ok"), ("oracle: " + o[:300] if o != "ok" else "")
+    if prop_ok and M.get("S") is not None and i != "marshal-failed":
+        vals, rest = i.rsplit("/", 1)
+        if vals != M.get("S"):
+            prop_ok, why = False, "items read back %s, specified %s" % (vals[:150], M.get("S")[:150])
+        elif int(rest) > 1:
+            prop_ok, why = False, "%s bytes left in the stream after reading every item back" % rest
+    if not corr_ok and not why:
+        why = "implementation and model differ"
+    return dict(corr_ok=corr_ok, prop_ok=prop_ok, nontrivial=(";" in i or "|" in i), bucket=body.split(" ")[0], why=why)
+RULES["hist"] = rule_hist
+
+PROPS["C17"] = dict(
+    disabled=True, na_reason="model and correspondence tie built; theorems are being proved",
+    level="proof", lean_module="RefmtProofs.Props.C17", theorems=[],
+    streams=[dict(name="hist", gen="hist", rule="hist")],
+    title="reused instances equal fresh ones; items frame cleanly", claim="(work in progress)",
+    rule_text="histories of 1..40 (thorough 400) calls on long-lived Marshaller / Unmarshaller / Cloner instances (one per atlas, four "
+              "atlases mapping the same Go types differently, interleaved), with calls that fail (unrepresentable values, wrong-kind items, "
+              "types without mapping); every call also run on a fresh instance (oracle) and on the stateless model; and streams of 2..20 items "
+              "marshalled back to back by one Marshaller and read back by one Unmarshaller, in both formats; non-trivial = at least 2 calls/items",
+)
